@@ -7,7 +7,7 @@
     the library and the binding, js/wasm build).  Model/Flow.v defines the leak sites, computes
     the tainted sets, checks them as a certificate and proves the certificate sound. *)
 From Coq Require Import List String PArith.
-From OtpV Require Import Flow SsaNative SsaWasm.
+From OtpV Require Import Flow Mem SsaNative SsaWasm.
 
 (** what the check found, for the report (empty lists on a tree where the property holds) *)
 Definition C09_native_sites := Eval vm_compute in site_names SsaNative.facts (search SsaNative.facts).
@@ -39,3 +39,9 @@ Example C09_nonvacuous :
   (1 <= List.length (f_src_hmac SsaNative.facts) /\ 1 <= List.length (f_src_hmac SsaWasm.facts) /\
    30 <= PS.cardinal (c_hmac (search SsaNative.facts)) /\ 200 <= PS.cardinal (c_caller (search SsaNative.facts)))%nat.
 Proof. vm_compute. repeat split; repeat constructor. Qed.
+
+(** nor can an expected code (or a code once accepted as equal to it) wait in memory for a later request to be compared
+    with: outside package initialisation nothing writes memory reachable from a package-level variable *)
+Theorem C09_stateless : Flow.mem_ok SsaNative.mem_facts = true /\ Flow.mem_ok SsaWasm.mem_facts = true.
+Proof. split; vm_compute; reflexivity. Qed.
+Print Assumptions C09_stateless.
